@@ -262,12 +262,23 @@ func (l *lexer) consume(end int) (b6.Expression, string) {
 
 func (l *lexer) lexStringLiteral(yylval *yySymType) int {
 	i := l.Index + 1
+	escaped := false
 	for i < len(l.Expression) {
 		r, w := utf8.DecodeRuneInString(l.Expression[i:])
 		i += w
-		if r == '"' {
+		if escaped {
+			escaped = false
+		} else if r == '\\' {
+			escaped = true
+		} else if r == '"' {
 			e, token := l.consume(i)
-			e.AnyExpression = b6.NewStringExpression(token[1 : len(token)-1]).AnyExpression
+			// UnparseString writes strings with %q, so undo its escapes; text
+			// that isn't a valid go string literal is taken verbatim, as before.
+			s, err := strconv.Unquote(token)
+			if err != nil {
+				s = token[1 : len(token)-1]
+			}
+			e.AnyExpression = b6.NewStringExpression(s).AnyExpression
 			yylval.e = e
 			return STRING
 		}
